@@ -449,6 +449,7 @@ func runC06(rc *RunCtx) {
 	spec := CmdSpec{Name: "obiuniq", Args: args, Dir: dir, Knobs: knobs, PoolPolicy: p.Pool, YieldDensity: p.Yield}
 	if large {
 		spec.MaxSteps = 20000000
+		spec.TimeoutSec = 1500
 	}
 	co := rc.RunCmd(spec)
 	mode := "disk"
